@@ -1,6 +1,8 @@
 // C08 replayer: life-cycle histories generated from spec/Precond.tla are executed on the real preconditioner
 // classes (JacobiPrecond, SORPrecond, SSORPrecond, PolynomialPrecond, ILUPrecond, ScalePrecond, DiagonalPrecond,
-// MatrixPrecond; SparseMatrixCSR<double>, UnitFilter).  All values are dyadic rationals <<m, e>> = m / 2^e and the
+// MatrixPrecond; SparseMatrixCSR<double>; filter = FilterChain<UnitFilter, MeanFilter, UnitFilter>, i.e. the chain
+// unit(F) ; mean(mp, md) ; unit(F2) of the specification, empty members being the identity).  All values are dyadic
+// rationals <<m, e>> = m / 2^e and the
 // matrices have power-of-two pivots, so every correct floating point evaluation is exact: each apply() result is
 // compared with == against the set of results the specification allows in the current life-cycle state.
 // Additionally: input vector unchanged, returned Status::success, linearity on the implementation's own outputs,
@@ -10,6 +12,8 @@
 #include <kernel/lafem/dense_vector.hpp>
 #include <kernel/lafem/sparse_matrix_csr.hpp>
 #include <kernel/lafem/unit_filter.hpp>
+#include <kernel/lafem/mean_filter.hpp>
+#include <kernel/lafem/filter_chain.hpp>
 #include <kernel/solver/jacobi_precond.hpp>
 #include <kernel/solver/sor_precond.hpp>
 #include <kernel/solver/ssor_precond.hpp>
@@ -26,7 +30,9 @@ typedef double DT;
 typedef Index IT;
 typedef LAFEM::SparseMatrixCSR<DT, IT> MatT;
 typedef LAFEM::DenseVector<DT, IT> VecT;
-typedef LAFEM::UnitFilter<DT, IT> FilT;
+typedef LAFEM::UnitFilter<DT, IT> UFilT;
+typedef LAFEM::MeanFilter<DT, IT> MFilT;
+typedef LAFEM::FilterChain<UFilT, MFilT, UFilT> FilT;
 
 static double dy(const vj::Value& v) { return std::ldexp(double(v[0].as_int()), -int(v[1].as_int())); }
 static std::vector<double> dyvec(const vj::Value& v) { std::vector<double> r; for(std::size_t i = 0; i < v.size(); ++i) r.push_back(dy(v[i])); return r; }
@@ -74,9 +80,24 @@ vj::Value run_case(const vj::Value& c)
   }
   MatT mat(n, n, ci, va, rp);
   VecT diag(n); for(Index i = 0; i < n; ++i) diag(i, dv[0][i]);
-  FilT fil(n);
-  std::vector<char> filtered(n, 0);
-  for(std::size_t k = 0; k < c["F"].size(); ++k) { Index idx = Index(c["F"][k].as_int() - 1); fil.add(idx, DT(0)); filtered[idx] = 1; }
+  // the filter chain  unit(F) ; mean ; unit(F2)
+  FilT fil;
+  const long long mk = c["mk"].as_int();
+  std::vector<char> filtered(n, 0);      // dofs that must vanish in every result: those of the LAST unit filter of the chain
+  {
+    UFilT u1(n), u2(n);
+    for(std::size_t k = 0; k < c["F"].size(); ++k) { Index idx = Index(c["F"][k].as_int() - 1); u1.add(idx, DT(0)); if(mk == 0) filtered[idx] = 1; }
+    for(std::size_t k = 0; k < c["F2"].size(); ++k) { Index idx = Index(c["F2"][k].as_int() - 1); u2.add(idx, DT(0)); filtered[idx] = 1; }
+    fil.at<0>() = std::move(u1);
+    fil.at<2>() = std::move(u2);
+    if(mk != 0)
+    {
+      std::vector<double> mp = dyvec(c["mp"]), md = dyvec(c["md"]);
+      VecT vp(n), vd(n);
+      for(Index i = 0; i < n; ++i) { vp(i, mp[i]); vd(i, md[i]); }
+      fil.at<1>() = MFilT(std::move(vp), std::move(vd));
+    }
+  }
   int cur = 0;
   auto set_values = [&](int which)
   {
@@ -159,7 +180,7 @@ vj::Value run_case(const vj::Value& c)
           // diagnosis: defining relation on the implementation's output (unfiltered rows only)
           std::string rel;
           const auto& M = A[cur];
-          if(kind == "sor" || kind == "ssor" || kind == "jacobi")
+          if((kind == "sor" || kind == "ssor" || kind == "jacobi") && mk == 0 && c["F"].size() == 0u && c["F2"].size() == 0u)
           {
             bool ok = true;
             if(kind == "ssor")
